@@ -8,6 +8,9 @@ Streams (model `Wpull.Url` vs the real code in ctx.repo):
            classid archive>, <applet codebase code archive>; hostile base/codebase values x link values of every class):
            never raises, every produced link = urljoin_safe(document base / joined codebase / page URL, link, allow_fragments=False);
            the model's base selection (docBase, elementBase) and join agree item by item
+  sitemaps ProcessingRule.add_extra_urls (--sitemaps, level-0 item) for start URLs over the host grammar (IPv6 literals with and
+           without port, IPv4 spellings, IDN, default / other ports, every network scheme): never raises; queues what URLInfo gives
+           for scheme://hostname_with_port/robots.txt and /sitemap.xml; model extraUrls agrees
   scrape   the consumer of the logging variant: the real ProcessingRule.scrape_document / _process_scrape_info (real FetchRule,
            real URLRewriter with every option combination incl. none, stub ItemSession table and scraper result) on link lists
            mixing parseable links with every class of unparseable one: never raises, unparseable skipped, parseable queued
@@ -417,6 +420,83 @@ def scrape_batch(ctx, wu, link_lists):
         ctx.sample({'stream': 'scrape', 'links': link_lists[0][:6], 'rewriter': None})
 
 
+START_URLS = ['http://[::1]:8080/', 'http://[::1]/', 'https://[2001:db8::1]:443/x', 'https://[2001:DB8:0:0::1]:8443/', 'ftp://[::1]:2121/pub/',
+              'http://[::ffff:1.2.3.4]:81/', 'http://127.0.0.1:8080/', 'http://0x7f.1:80/', 'http://example.com/', 'http://example.com:80/a',
+              'http://example.com:8080/', 'https://example.com:80/', 'ftp://example.com/', 'ftp://example.com:21/', 'ftp://example.com:80/f',
+              'http://bücher.example:8080/', 'http://EXAMPLE.com.:81', 'example.com:8000/p', 'localhost:8080', 'http://u:p@[::1]:8080/x?y#z',
+              'ws://h/', 'wss://h:80/', 'gopher://h:70/', 'mailto:x', 'HTTP://[A::1]:81/']
+
+
+def sitemaps_batch(ctx, wu, starts):
+    """ProcessingRule.add_extra_urls (--sitemaps) for a level-0 start URL: never raises; queues what URLInfo gives
+    for scheme://hostname_with_port/robots.txt and /sitemap.xml; nothing at level 1"""
+    from wpull.pipeline.item import URLRecord, Status
+    from wpull.pipeline.session import ItemSession
+    from wpull.processor.rule import FetchRule, ProcessingRule
+    cases = []
+    for start in starts:
+        def after(info, start=start):
+            outs = []
+            for level in (0, 1):
+                record = URLRecord()
+                record.url = start
+                record.status = Status.in_progress
+                record.level = level
+                record.inline_level = None
+                record.root_url = None
+                record.parent_url = None
+                record.link_type = None
+                app = _AppSession()
+                item = ItemSession(app, record)
+                rule = ProcessingRule(FetchRule(), sitemaps=True)
+                rule.add_extra_urls(item)
+                item.finish()
+                outs.append(list(app.factory['URLTable'].added))
+            return outs
+        c = uc.Case(start, 'http', 'utf-8', 'sitemaps')
+        uc.run_real(wu, c, 'extra', after=after)
+        cases.append(c)
+    live = [c for c in cases if not isinstance(c.exc, ValueError)]      # a start URL is a valid URL
+    replies = ctx.model.ask([c.line for c in live])
+    for c, rep in zip(live, replies):
+        case = {'stream': 'sitemaps', 'url': c.url}
+        ctx.case(('sitemaps', c.url), tags=['sitemaps:' + ('exc' if c.exc is not None else 'ok')] + c.tags[:1])
+        if c.exc is not None:
+            if isinstance(c.exc, uc.Timeout):
+                ctx.fail('nontermination', 'add_extra_urls', case, 'timeout')
+            else:
+                ctx.fail('raises', 'add_extra_urls', case, 'ProcessingRule.add_extra_urls raised %s: %s for the start URL %r'
+                         % (type(c.exc).__name__, str(c.exc)[:200], c.url))
+            real = 'exc ' + uc.exc_name(c.exc)
+        else:
+            lvl0, lvl1 = c.real
+            info = c.info
+            expected = [wu.URLInfo.parse('%s://%s%s' % (info.scheme, info.hostname_with_port, p)).url
+                        for p in ('/robots.txt', '/sitemap.xml')]
+            if lvl0 != expected or lvl1:
+                ctx.fail('extra-urls-wrong', 'add_extra_urls', case, 'queued %r (level 1: %r), expected %r' % (lvl0, lvl1, expected))
+            real = 'ok ' + ('~' if not lvl0 else '/'.join(enc(u) for u in lvl0))
+        if rep != real:
+            ctx.disagree('sitemaps', case, rep, real)
+    if cases:
+        ctx.sample({'stream': 'sitemaps', 'url': cases[0].url})
+
+
+def gen_starts(ctx, rng, n):
+    out = list(START_URLS)
+    for _ in range(n):
+        spec = uc.Spec(rng)
+        if rng.random() < 0.5:
+            spec.hostkind = 'ipv6'
+            v = rng.getrandbits(128)
+            for g in range(8):
+                if rng.random() < 0.5:
+                    v &= ~(0xffff << (16 * g))
+            spec.host = v
+        out.append(spec.render(rng))
+    return out
+
+
 JUNK_LINKS = ['http://[::1/unclosed', 'http://exa mple.com/', 'http://example.com:99999999/', 'http://' + 'a' * 70 + '.com/',
               'http://example.com/\ud800', 'http://:/', '', ':', 'http://', 'http://\udc80@h/', 'http://h:x/', 'http://[fe80::1%eth0]/',
               'http://a..b/', '\x00', 'http://h/\x01', '//', 'http://@/', 'http://[]', 'http://é' + 'a' * 64 + '.com/']
@@ -505,6 +585,8 @@ def replay(ctx, case, kind=None, where=None):
         scrape_batch(ctx, wu, [case['links']])
     elif s == 'htmljoin':
         html_batch(ctx, wu, [case])
+    elif s == 'sitemaps':
+        sitemaps_batch(ctx, wu, [case['url']])
     else:
         raise Infra('unknown replay stream %r' % s)
 
@@ -525,6 +607,7 @@ def run(ctx):
         batch(ctx, wu, ol, op='orlog')
     join_batch(ctx, wu, gen_pairs(ctx, ctx.subrng('join'), ctx.scale(3000, 60000)))
     scrape_batch(ctx, wu, gen_link_lists(ctx, ctx.subrng('scrape'), ctx.scale(400, 6000)))
+    sitemaps_batch(ctx, wu, gen_starts(ctx, ctx.subrng('sitemaps'), ctx.scale(600, 10000)))
     hrng = ctx.subrng('html')
     html_batch(ctx, wu, [gen_doc(hrng) for _ in range(ctx.scale(600, 10000))])
     if ctx.tier == 'thorough' and ctx.boost == 1:
@@ -539,3 +622,4 @@ def search(ctx):
     join_batch(ctx, wu, gen_pairs(ctx, rng, ctx.scale(100, 300)))
     scrape_batch(ctx, wu, gen_link_lists(ctx, rng, ctx.scale(20, 60)))
     html_batch(ctx, wu, [gen_doc(rng) for _ in range(ctx.scale(30, 100))])
+    sitemaps_batch(ctx, wu, gen_starts(ctx, rng, ctx.scale(30, 100)))
